@@ -372,6 +372,13 @@ func QueryName(r *fw.Rng, i int) string {
 	if r.Chance(0.08) {
 		s += oddNameChars[r.Intn(len(oddNameChars))] + "x"
 	}
+	if r.Chance(0.04) {
+		// percent-encoded names (as exported by some portals) are names like any other
+		s += []string{"%2F", "%25", "%41", "%2C", "%7C"}[r.Intn(5)] + "y"
+	}
+	if r.Chance(0.03) {
+		s = "#" + s
+	}
 	return fmt.Sprintf("%s%s%d", s, nameChars[3+r.Intn(3)], i)
 }
 
